@@ -79,11 +79,22 @@ Definition e_dict (v : val) : val :=
     let (s, xs) := dict_run dict_init os in
     VL [VL (map v_res xs); VL (map (fun id => v_view (dict_view s id)) ids)]).
 
+(* DictStorage over copy-on-access mappings (repaired code: assign back) *)
+Definition e_dictcopy (v : val) : val :=
+  with_ops v (fun os ids =>
+    let (s, xs) := cdict_run true cdict_init os in
+    VL [VL (map v_res xs); VL (map (fun id => v_view (cdict_view s id)) ids)]).
+
 (* redis: the operation list may contain VL [VN 7] = wait() *)
 Fixpoint ritems_v (l : list val) : option (list ritem) :=
   match l with
   | [] => Some []
   | VL [VN 7] :: l' => match ritems_v l' with Some its => Some (RIwait :: its) | None => None end
+  | VL [VN 8; VN id; e] :: l' =>
+      match env_v e, ritems_v l' with
+      | Some e', Some its => Some (RIorphan id e' :: its)
+      | _, _ => None
+      end
   | v :: l' => match op_v v, ritems_v l' with
                | Some o, Some its => Some (RIop o :: its)
                | _, _ => None
@@ -217,6 +228,6 @@ Definition e_cloud_sched (v : val) : val :=
   end.
 
 Definition entries : list SV.lib.Val.entry :=
-  [("c15_ref"%string, e_ref); ("c15_dict"%string, e_dict); ("c15_redis"%string, e_redis);
+  [("c15_ref"%string, e_ref); ("c15_dict"%string, e_dict); ("c15_dictcopy"%string, e_dictcopy); ("c15_redis"%string, e_redis);
    ("c15_cloud"%string, e_cloud); ("c15_rounds"%string, e_rounds);
    ("c15_redis_sched"%string, e_redis_sched); ("c15_cloud_sched"%string, e_cloud_sched)].
